@@ -19,3 +19,14 @@ def lazy_check(sym, cond, signature, detail):
 def realize(sym, v):
     """Concretise a solver value (the C boundary: pydantic-core, _csv, json)."""
     return sym.realize(v)
+
+
+def detach(sym):
+    """Detach the current path from CrossHair's search tree (no-op on replay).
+
+    Realising a solver variable inside the tree makes CrossHair enumerate its whole domain (value == m / value != m
+    forks).  After detaching, realisation only reads the solver's model: the path counts as one explored
+    path with one solver-chosen witness -- the honest meaning of "concretised at the C boundary"."""
+    if getattr(sym, "mode", "") == "symbolic":
+        from crosshair.statespace import context_statespace
+        context_statespace().detach_path()
